@@ -383,6 +383,29 @@ fn cases(mode: &str) -> Vec<Case> {
                     }),
                 });
             }
+                    // systematic neighbourhoods: (left context, is the nearest non-whitespace token before 'o' a number word) x (right context, same)
+            // x three kinds of whitespace; a separator run such as " - " or ", " is a punctuation neighbour, not whitespace
+            let lefts: [(&str, bool, &str); 10] = [("", false, ""), ("eight ", true, "8 "), ("dear ", false, "dear "), (", ", false, ", "), ("- ", false, "- "), ("! ", false, "! "),
+                ("eight, ", false, "8, "), ("eight - ", false, "8 - "), ("dear - ", false, "dear - "), ("eight. ", false, "8. ")];
+            let rights: [(&str, bool, &str); 9] = [("", false, ""), (" eight", true, " 8"), (" dear", false, " dear"), (", eight", false, ", 8"), (" - eight", false, " - 8"),
+                ("! eight", false, "! 8"), (", dear", false, ", dear"), (" - dear", false, " - dear"), (" ( eight", false, " ( 8")];
+            for ws in [" ", "\u{a0}", "\t"] {
+                for (l, ln, lo) in lefts {
+                    for (r, rn, ro) in rights {
+                        let text = format!("{}o{}", l, r).replace(' ', ws);
+                        let want = format!("{}{}{}", lo, if ln || rn { "0" } else { "o" }, ro).replace(' ', ws);
+                        let (t, w) = (text.clone(), want);
+                        out.push(Case {
+                            descr: serde_json::json!({"mode":"orule","lang":"en","text":text}),
+                            run: guard(move || {
+                                let r = replace_numbers_in_text(&t, &lang("en"), 0.0);
+                                let norm = |s: &str| s.split_whitespace().collect::<Vec<_>>().join("");
+                                if norm(&r) != norm(&w) { Some(format!("{:?} -> {:?}, expected {:?} up to spacing", t, r, w)) } else { None }
+                            }),
+                        });
+                    }
+                }
+            }
         }
         // C11: only the non-ASCII letters of a number word are capitalised
         "ncase" => {
